@@ -7,11 +7,11 @@ git checkout -q -- . ; git apply $SD/patch.diff || { echo "$ID: patch does not a
 cmake --build _build >/dev/null 2>&1 || { echo "$ID: build failed with change"; git checkout -q -- .; exit 9; }
 T=$(ctest --test-dir _build 2>&1 | grep "tests passed")
 DEMO=$(ls $SD/demo.c $SD/demo.cpp 2>/dev/null | head -1)
-CC=gcc; case $DEMO in *.cpp) CC=g++;; esac
-$CC -O1 -g $DEMO $WT/_build/libOPNMIDI.a -I$WT/include -I$WT/src -lstdc++ -lm -o /tmp/demo-$ID-mut 2>/dev/null
+CC=gcc; XF=""; case $DEMO in *.cpp) CC=g++; XF="-fno-access-control -DENABLE_END_SILENCE_SKIPPING -DLIBOPNMIDI_VISIBILITY -DOPNMIDI_MIDI2VGM";; esac
+$CC -O1 -g $XF $DEMO $WT/_build/libOPNMIDI.a -I$WT/include -I$WT/src -lstdc++ -lm -o /tmp/demo-$ID-mut 2>/dev/null
 timeout 20 /tmp/demo-$ID-mut >/dev/null 2>&1; RM=$?
 git checkout -q -- . ; cmake --build _build >/dev/null 2>&1
-$CC -O1 -g $DEMO $WT/_build/libOPNMIDI.a -I$WT/include -I$WT/src -lstdc++ -lm -o /tmp/demo-$ID-orig 2>/dev/null
+$CC -O1 -g $XF $DEMO $WT/_build/libOPNMIDI.a -I$WT/include -I$WT/src -lstdc++ -lm -o /tmp/demo-$ID-orig 2>/dev/null
 timeout 20 /tmp/demo-$ID-orig >/dev/null 2>&1; RO=$?
 echo "$ID: ctest-with-change='$T' demo-with-change-exit=$RM demo-original-exit=$RO"
 rm -f /tmp/demo-$ID-mut /tmp/demo-$ID-orig
